@@ -147,7 +147,8 @@ def band_oracle(x, lr, ur, la, ua, res):
     m = np.array(res, dtype=bool)
     xrel = (x - x.min()) / (x.max() - x.min())
     vk = (xrel >= lr) & (xrel <= ur)
-    dontcare = (np.abs(xrel - lr) < 1e-12) | (np.abs(xrel - ur) < 1e-12)
+    # closed band: an entry exactly on a threshold is inside; only near-misses (float noise) are undecided
+    dontcare = ((xrel != lr) & (np.abs(xrel - lr) < 1e-12)) | ((xrel != ur) & (np.abs(xrel - ur) < 1e-12))
     cl = count_candidates(n, Fraction(la)) if la > 0 else [0]
     ch = count_candidates(n, 1 - Fraction(ua)) if ua < 1 else [0]
     msgs = []
@@ -463,10 +464,10 @@ def run(ctx):
         for (xk, ak), o, tr in zip(calls, outs, trues):
             exp = tr / ak if prev is None else d * prev + (1 - d) * tr / ak
             if abs(o - exp) > 1e-12 * max(1, abs(exp)):
-                oracle_hits.append((dict(kind='AggScaling', which=which, damping=d, calls=calls, impl=outs), 'scale factor does not follow the recurrence'))
+                oracle_hits.append((dict(site='AggScaling.__call__', pred='scale factor follows the damped recurrence', which=which, damping=d, calls=calls, impl=outs), 'scale factor does not follow the recurrence'))
                 break
             if d == 0.0 and abs(o * ak - tr) > 1e-12 * max(1, abs(tr)):
-                oracle_hits.append((dict(kind='AggScaling', which=which, damping=d, calls=calls, impl=outs), 'undamped: sf*approx != true extreme'))
+                oracle_hits.append((dict(site='AggScaling.__call__', pred='undamped: sf*approx = true extreme', which=which, damping=d, calls=calls, impl=outs), 'undamped: sf*approx != true extreme'))
                 break
             prev = o
     for which in ('MAX', 'Min', 'median', ''):
@@ -495,9 +496,14 @@ def run(ctx):
                     if rng.random() < 0.2 and n > 1:
                         xs[1] = xs[0]
                     sig = pym.Signal('x', state=xs.copy())
-                    mod = make_module(pym, kind, sig, par)
-                    mod.response()
-                    val = float(mod.sig_out[0].state)
+                    try:
+                        mod = make_module(pym, kind, sig, par)
+                        mod.response()
+                        val = float(mod.sig_out[0].state)
+                    except Exception as e:
+                        oracle_hits.append((dict(site=kind + '.aggregation_function', pred='returns a value on positive data', kind=kind,
+                                                 parameter=par, x=xs.tolist(), impl=type(e).__name__), 'aggregation raised ' + type(e).__name__))
+                        continue
                     goals.append(agg_goal(kind, par, xs, val))
                     glabels.append(dict(kind=kind, parameter=par, x=xs.tolist(), impl=val))
                     ctx.count(f'agg:{kind}:{"pos" if par > 0 else "neg"}')
@@ -539,6 +545,11 @@ def run(ctx):
             except ValueError:
                 ok = False        # empty selection: outside the property
                 break
+            except Exception as e:
+                oracle_hits.append((dict(site='Aggregation._response', pred='returns a value on positive data', kind=kind, parameter=par,
+                                         x=xk.tolist(), impl=type(e).__name__), 'response raised ' + type(e).__name__))
+                ok = False
+                break
             sel = mod.select
             selc = -1 if sel is Ellipsis else mask_code([bool(b) for b in sel])
             xs_sel = xk if sel is Ellipsis else xk[sel]
@@ -555,10 +566,10 @@ def run(ctx):
             if use_scaling and d == 0.0:
                 tr = float(xs_sel.max() if which == 'max' else xs_sel.min())
                 if abs(out - tr) > 1e-12 * max(1, abs(tr)):
-                    oracle_hits.append((dict(kind=kind, parameter=par, which=which, damping=d, active_set=ascfg, history=[s['x'] for s in steps], impl=outs),
+                    oracle_hits.append((dict(site='Aggregation._response', pred='undamped scaling returns the true extreme', kind=kind, parameter=par, which=which, damping=d, active_set=ascfg, history=[s['x'] for s in steps], impl=outs),
                                         'undamped scaling: output != true extreme of the selected entries'))
             if not use_scaling and abs(out - xagg) > 1e-12 * max(1, abs(xagg)):
-                oracle_hits.append((dict(kind=kind, parameter=par, active_set=ascfg, history=[s['x'] for s in steps], impl=outs),
+                oracle_hits.append((dict(site='Aggregation._response', pred='unscaled output is the aggregation value', kind=kind, parameter=par, active_set=ascfg, history=[s['x'] for s in steps], impl=outs),
                                     'without scaling the output is the aggregation value'))
         if not ok or not steps:
             ctx.count('pipeline:skipped-empty-selection')
@@ -617,7 +628,8 @@ def run(ctx):
         elif 'lower_amt' in info:
             ctx.violation('impl-violates', 'AggActiveSet.__call__', 'counts are fractions rounded down', 'counts', info, expected=msg)
         else:
-            ctx.violation('impl-violates', str(info.get('kind')), msg, 'aggregation', info, expected=msg, got=info.get('impl'))
+            site, pred = info.get('site', str(info.get('kind'))), info.get('pred', 'aggregation bounds')
+            ctx.violation('impl-violates', site, pred, 'aggregation', info, expected=msg, got=info.get('impl'))
 
     if ctx.replay:
         ctx.extra['replay'] = 'the replayed case is part of the corpus / generated stream; see violations'
